@@ -598,6 +598,10 @@ CLAIMED["C09"]["text"] += (" Round 9 (fix9b): KF-C09-CALC-SIGNAL-MAX-RET0 REPAIR
 CLAIMED["C17"]["text"] += (" Round 9 (fix9b): the command model follows the repair of KF-C09-CALC-SIGNAL-MAX-RET0 -- SFC_CALC_[NORM_]SIGNAL_MAX on a handle that cannot seek / cannot read returns the recorded error number "
                             "(lean/SfProps/C17Routes.lean calc_signal_max_route_guards; the exhaustive grid compares the return value on write-only handles and pipes).")
 
+CLAIMED["C04"]["text"] += (" Round 9 (fix9b): KF-CAF-DATA-MINUS-ONE REPAIRED (caf_read_header resolves a 'data' chunk size of -1 = to the end of the file where the chunk header is read): Sf.Caf.negSize / dataCase, "
+                            "lean/SfProps/C04CafDataEnd.lean caf_data_to_end_walk (EVERY file: the walk in front of 'data' -1 ends with the audio = every byte behind the edit count), caf_data_to_end_reopens, "
+                            "negative_size_still_ends_walk; the rule before the repair Sf.Caf.walkOld / parseOld: caf_data_to_end_walk_old_rule, caf_data_size_minus_one_old_rule. vlib/cafw64.py parser variants: -1 with trailing bytes, "
+                            "file ending in / behind the edit count, -2, -1 on 'free'.")
 
 def main():
     checks = []
